@@ -24,13 +24,16 @@ MODELS_JSON = os.path.join(BUILD, 'models.json')
 C02_MODELS = {'scalars', 'collections', 'plain', 'extra', 'dashed',
               'dashed_sav', 'enum_str', 'hier', 'hooks', 'ambig', 'optreq',
               'chain', 'absmix', 'unk', 'mixin', 'nested', 'dictkey',
-              'lists', 'mergecls'}
+              'lists', 'mergecls', 'extradef', 'absmid', 'dashextra', 'tree',
+              'treex', 'index', 'savopt'}
 C03_MODELS = {'hier', 'discrim', 'ambig', 'enum_str', 'plain', 'multi',
-              'chain', 'absmix', 'mixin', 'inhrec', 'samename'}
+              'chain', 'absmix', 'mixin', 'inhrec', 'samename', 'absmid',
+              'extradef', 'tree'}
 C10_MODELS = {'hooks', 'dashed_sav', 'adversarial', 'parsed', 'mixin', 'multi',
-              'samename', 'inhrec'}
+              'samename', 'inhrec', 'index', 'savopt', 'savnest'}
 C17_STRONG = {'plain', 'extra', 'dashed_sav', 'enum_str', 'collections',
               'scalars'}
+C17_STRONG_LOAD = {'tree', 'savopt'}
 
 
 def write_models(dimplicit=None):
@@ -365,7 +368,24 @@ def rel_c10(c):
     if o['outcome'] == 'ERR' and o['errclass'] == 'Other:SeasoningError':
         out.append(('impl', 'load(%r): SeasoningError escaped' % o['text'],
                     None))
-    return out, 1
+    # the hooks that run do not depend on the order in which the classes
+    # were registered
+    n = 1
+    if not out and len(loadreplay.ctx()['models'][c['model']]['reg']) > 1:
+        for regperm in (1, 2):
+            o2 = loadreplay.observe(c, regperm=regperm)
+            n += 1
+            ol2 = loadreplay.obs_log(o2, None)
+            if (o2['outcome'], ol2) != (o['outcome'], ol):
+                out.append(('impl', 'load(%r) as %s: with the classes '
+                            'registered in %s order the outcome and hook calls '
+                            'are %s %s, in declared order %s %s' % (
+                                o['text'], json.dumps(c['dt']),
+                                ['declared', 'reversed', 'rotated'][regperm],
+                                o2['outcome'], json.dumps(ol2)[:300],
+                                o['outcome'], json.dumps(ol)[:300]), fid))
+                break
+    return out, n
 
 
 def has_dup_keys(doc):
@@ -767,8 +787,42 @@ def typed_positions(b, doc, dt):
             return None
         return t
 
+    def most_derived(cname, nd):
+        """the registered class a valid mapping is loaded as where cname is
+        expected: the unique most derived class whose required parameters
+        are all present (None if that is not unique)"""
+        keys = {h[k - 1]['v'] for k in nd['c'][0::2]}
+        reg = set(b.model['reg'])
+
+        def subs(x):
+            return [d['name'] for d in b.model['classes']
+                    if x in d['bases'] and d['name'] in reg]
+
+        def matches(x):
+            d = b.byname[x]
+            return (not d['abstract'] and d['kind'] == 'plain' and
+                    not d['hasrecog'] and
+                    all(p['name'] in keys for p in d['params']
+                        if p['required']))
+
+        def best(x):
+            found = []
+            for y in subs(x):
+                found += best(y)
+            if not found and matches(x):
+                found = [x]
+            return found
+        if any(b.byname[y]['hasrecog'] for y in [cname] + subs(cname)):
+            return cname
+        f = best(cname)
+        return f[0] if len(f) == 1 else None
+
     def walk(n, t, key, parent, cls, name):
         r = resolve(t, n)
+        if r is not None and r[0] == 'class' and h[n - 1]['k'] == 'm' and \
+                b.byname[r[1]]['kind'] == 'plain':
+            md = most_derived(r[1], h[n - 1])
+            r = ['class', md] if md else None
         out.append({'node': n, 'type': r, 'decl': t, 'key': key,
                     'parent': parent, 'cls': cls, 'name': name})
         if r is None:
@@ -839,7 +893,9 @@ def corruptions(b, doc, dt):
         if r[0] == 'class' and b.byname[r[1]]['kind'] == 'plain' and \
                 nd['k'] == 'm':
             c = b.byname[r[1]]
-            msites = [x for x in (n, p['key'], p['parent']) if x]
+            # the statement: the line of the corrupted key or of the start of
+            # the enclosing mapping, which is this class mapping itself
+            msites = [n]
             for j in range(0, len(nd['c']), 2):
                 kid = nd['c'][j]
                 kname = h[kid - 1]['v']
@@ -848,15 +904,28 @@ def corruptions(b, doc, dt):
                     d = copy.deepcopy(doc)
                     d['h'][n - 1]['c'] = nd['c'][:j] + nd['c'][j + 2:]
                     res.append(('dropped required key', d, msites, kname))
+                if prm:
                     d = copy.deepcopy(doc)
                     d['h'][kid - 1]['v'] = kname + 'x'
                     res.append(('misspelt key', d, msites + [kid], None))
+                rf = c.get('raisesif')
+                if prm and rf and rf[0] == kname and \
+                        h[nd['c'][j + 1] - 1]['k'] == 's':
+                    d = copy.deepcopy(doc)
+                    d['h'][nd['c'][j + 1] - 1].update(t=rf[1][0], v=rf[1][1])
+                    res.append(('value refused by the constructor', d,
+                                [n, kid, nd['c'][j + 1]], None))
             if not c['extra']:
                 d = copy.deepcopy(doc)
                 d['h'].append({'k': 's', 't': 'str', 'v': 'zzz', 'c': []})
                 d['h'].append({'k': 's', 't': 'int', 'v': '42', 'c': []})
                 d['h'][n - 1]['c'] = nd['c'] + [len(d['h']) - 1, len(d['h'])]
                 res.append(('added key', d, msites + [len(d['h']) - 1], 'zzz'))
+    if any(set(d['bases']) & set(b.model['reg']) for d in b.model['classes']):
+        # with registered bases / derived classes another class may offer an
+        # alternative reading of a corrupted mapping: only a value that the
+        # constructor of the recognised class refuses is within the claim
+        res = [r for r in res if r[0] == 'value refused by the constructor']
     return res
 
 
@@ -947,6 +1016,12 @@ def c17_strong(V, tier):
     cases = [c for c in cases if c['model'] in STRONG_MODELS
              and c['res'][0] == 'VAL' and c['dex'] == ''
              and isinstance(c['oh'], list)]
+    # ... and the accepted documents of the load exploration for the families
+    # that have no dump side (nested objects of one class, failing hooks)
+    stats2, cases2 = tlc_cases('MC_LoadRef_main.cfg' if tier == 'quick'
+                               else 'MC_LoadRef_main_t.cfg')
+    cases += [c for c in cases2 if c['model'] in C17_STRONG_LOAD
+              and c['res'][0] == 'VAL']
     for c in cases:
         c.setdefault('dev', {'alias': False})
         c.setdefault('inv', {})
